@@ -343,8 +343,11 @@ Proof. vm_compute. repeat split; reflexivity. Qed.
      never passed over -, and the first delivery of a stream whose start was never seen begins at the
      least received offset (a = min_recv R).  (Invariant: every received byte at or beyond the delivery
      point is held in the queue, every held byte was received.)
-   Missing for C09_stream_statement: that FlushAll delivers everything received and completes every
-   stream (termination of the flush loop within its fuel), and the step from this Prop to the
+   - ReassemblyComplete comes only when the data half was ended by FIN/RST or when everything the
+     stream received has been delivered (max_recv R <= delivery point; nothing received at all for a
+     stream whose start was never seen).
+   Missing for C09_stream_statement: that FlushAll leaves no live stream (termination of the flush
+   loop within its fuel) and that a flush never closes the data half without completing the stream, and the step from this Prop to the
    boolean trace_okb. *)
 Theorem C09_stream_events : forall S i hs,
   zlen S < 1073741823 -> forallb (hop_okb S) hs = true ->
